@@ -96,7 +96,7 @@ TraceNext ==
               v  == IF v0 = "" /\ \E t \in RefTags : InSeq(cbs, t) /\ c.rc[t] > 0
                     THEN "NoResurrection" ELSE v0
           IN /\ Commit(c)
-             /\ flushes' = IF st.ev = "flush" THEN Append(flushes, <<st.e, Len(dlog)>>) ELSE flushes
+             /\ flushes' = IF st.ev = "flush" THEN Append(flushes, <<st.e, Len(dlog), calls + 1>>) ELSE flushes
              /\ nfail' = nfail + Len(st.failAt)
              /\ bad' = IF v = "" THEN <<>> ELSE <<l, v>>
              /\ IF v # "" THEN PrintT(<<"REJECT", Traces[tid].id, l, v>>) /\ PrintT(<<"EXPECTED", Traces[tid].id, ToJson(vv)>>)
